@@ -44,6 +44,10 @@ namespace occa {
       // Token before the pair started
       token_t *beforePairToken;
 
+      // Closing parenthesis of the last (type) cast: it acts as
+      //   a prefix operator, not as the end of an operand
+      token_t *castEndToken;
+
       scopedStateList scopedStates;
       expressionScopedState *scopedState;
 
